@@ -66,8 +66,31 @@ def find_element_that_meets_mh(stack, metahandler):
     raise IndexError
 
 
+def ordered_stack_types(g: Grammar) -> list[type]:
+    """The grammar's mentioned symbols in an order that depends only on the grammar: symbols
+    are listed as they are met when walking the productions, not in the iteration order of
+    a set of types (which follows memory addresses) nor by repr (equal for distinct
+    refinements such as two FloatRange(0, 1) fields)."""
+    ordered: list[type] = []
+
+    def add(t):
+        for x in g.collect_types(t):
+            if x not in ordered:
+                ordered.append(x)
+
+    add(g.starting_symbol)
+    for non_terminal, productions in g.alternatives.items():
+        add(non_terminal)
+        for production in productions:
+            add(production)
+    for t in sorted(g.get_all_mentioned_symbols(), key=repr):
+        if t not in ordered:
+            ordered.append(t)
+    return ordered
+
+
 def create_tree_using_stacks(g: Grammar, r: ListWrapper, failures_limit=100):
-    all_stack_types = sorted(g.get_all_mentioned_symbols(), key=repr)
+    all_stack_types = ordered_stack_types(g)
 
     stacks: dict[type, list[Any]] = {k: [] for k in all_stack_types}
 
